@@ -308,6 +308,8 @@ fn c10(args: &Args) -> Report {
                 }
             }
             c10_literals(&mut r);
+            let lefts: Vec<Vec<u8>> = all_strings(&SIGMA10[1..], 3);
+            literal_sweep("C10", &lefts, &mut r);
             r.sample(json!({"op":"UnixString::try_from_vec","a": show_bytes(&all[all.len()/2])}));
             r
         }));
@@ -410,6 +412,118 @@ fn ref_file_name(c: &[u8]) -> Option<Vec<u8>> {
         Some(c[i + 1..].to_vec())
     } else {
         None
+    }
+}
+
+
+// ---------------------------------------------------------------------------
+// literal templates: `format_args!("literal")` has `Arguments::as_str() == Some(..)`, which code may
+// special-case; runtime `{}` arguments never reach such a path, so a fixed family of compile-time
+// literals is swept against every left operand as well.  (A template consisting of a lone NUL — "empty extension,
+// pre-terminated" — is left out: what the join of an empty pre-terminated template should be is not fixed by the property.)
+
+macro_rules! literal_templates {
+    ($visit:expr; $($l:literal),* $(,)?) => {{
+        $( $visit($l, &|ua: &UnixStr| ua.path_join_fmt(format_args!($l)), &|| UnixString::from_format(format_args!($l))); )*
+    }};
+}
+
+fn for_each_literal(mut visit: impl FnMut(&'static str, &dyn Fn(&UnixStr) -> UnixString, &dyn Fn() -> UnixString)) {
+    literal_templates!(visit;
+        "", "a", "b", "/", ".", "aa", "a/", "/a", "//", "a.", "./", "/.", "..", "ab", "a/b", "/a/", "//a", "a//",
+        "/there", "there/", "a\0", "/a\0", "/\0", "a/b/c/d/e/f/g/h/i/j/k/l/m/n/o/p/q/r/s/t/u/v/w/x/y/z",
+        "/0123456789012345678901234567890123456789012345678901234567890123456789");
+}
+
+fn literal_sweep(prop: &str, lefts: &[Vec<u8>], r: &mut Report) {
+    for_each_literal(|lit, join, fmt| {
+        let lit_content = strip_nul(lit.as_bytes()).to_vec();
+        if prop == "C10" {
+            r.eval();
+            r.nontrivial_unique();
+            let case = json!({"op": "from_format-literal", "a": show_bytes(lit.as_bytes())});
+            set_case(&case.to_string());
+            let res = catch(|| fmt().as_slice().to_vec());
+            clear_case();
+            match res {
+                Err(p) => r.violation("C10:from_format-literal:panic", format!("from_format(format_args!({lit:?})) panicked: {p}"), case),
+                Ok(raw) => {
+                    if let Err(why) = wf(&raw, !lit_content.contains(&0), Some(&lit_content)) {
+                        r.violation(&format!("C10:from_format-literal:{why}"), format!("from_format(format_args!({lit:?})) = raw {}", show_bytes(&raw)), case);
+                    }
+                }
+            }
+        }
+        for a in lefts {
+            r.eval();
+            r.nontrivial_unique();
+            let an = with_nul(a);
+            let ua = unsafe { UnixStr::from_bytes_unchecked(&an) };
+            let case = json!({"op": "path_join_fmt-literal", "a": show_bytes(a), "b": show_bytes(lit.as_bytes())});
+            set_case(&case.to_string());
+            let res = catch(|| join(ua).as_slice().to_vec());
+            clear_case();
+            match res {
+                Err(p) => r.violation(&format!("{prop}:path_join_fmt-literal:panic"), format!("path_join_fmt({:?}, format_args!({lit:?})) panicked: {p}", show_bytes(a)), case),
+                Ok(raw) => {
+                    if prop == "C10" {
+                        if let Err(why) = wf(&raw, true, None) {
+                            r.violation(&format!("C10:path_join_fmt-literal:{why}"), format!("path_join_fmt({:?}, format_args!({lit:?})) = raw {}", show_bytes(a), show_bytes(&raw)), case);
+                        }
+                    } else {
+                        let want = ref_join(a, &lit_content);
+                        if content(&raw) != want.as_slice() {
+                            r.violation(
+                                "C11:path_join_fmt-literal:wrong-answer",
+                                format!("path_join_fmt({:?}, format_args!({lit:?})) = {:?}, definition gives {:?}", show_bytes(a), show_bytes(content(&raw)), show_bytes(&want)),
+                                case,
+                            );
+                        }
+                    }
+                }
+            }
+        }
+    });
+}
+
+/// C11 length ladder: one structured operand family per length 0..=max (equal operands, one byte changed at the
+/// start / middle / end, one byte shorter, one byte longer, empty), both orders, both guard placements; and every
+/// position of a single separator for the unary operations.  Word-at-a-time fast paths and length thresholds
+/// well above the exhaustive window are straddled at every length.
+fn c11_ladder(max: usize, r: &mut Report) {
+    let mut pl = Placed { a: GuardArena::new(2), b: GuardArena::new(2) };
+    let pat = b"ab.a/b.ba/";
+    for len in 0..=max {
+        let a: Vec<u8> = (0..len).map(|i| pat[i % pat.len()]).collect();
+        let mut variants: Vec<Vec<u8>> = vec![a.clone(), Vec::new()];
+        for pos in [0usize, len / 2, len.saturating_sub(1)] {
+            if len > 0 {
+                let mut v = a.clone();
+                v[pos] = if v[pos] == b'b' { b'a' } else { b'b' };
+                variants.push(v);
+            }
+        }
+        if len > 0 {
+            variants.push(a[..len - 1].to_vec());
+            variants.push(a[1..].to_vec());
+        }
+        let mut longer = a.clone();
+        longer.push(b'b');
+        variants.push(longer);
+        for b in &variants {
+            for at_end in [true, false] {
+                c11_pair(&mut pl, &a, b, at_end, r);
+                c11_pair(&mut pl, b, &a, at_end, r);
+            }
+        }
+        if len <= 140 {
+            for p in 0..len {
+                let mut s = vec![b'a'; len];
+                s[p] = b'/';
+                c11_single(&mut pl, &s, true, r);
+                c11_single(&mut pl, &s, false, r);
+            }
+        }
     }
 }
 
@@ -598,11 +712,28 @@ fn c11(args: &Args) -> Report {
             r
         }));
     }
+    {
+        let lefts = all_strings(SIGMA11, lp);
+        items.push(isolated("literal-templates", move || {
+            let mut r = Report::new();
+            literal_sweep("C11", &lefts, &mut r);
+            r.sample(json!({"op":"path_join_fmt-literal","a":"a/","b":"/there"}));
+            r
+        }));
+        let lmax = if args.thorough { 1100 } else { 200 };
+        items.push(isolated("length-ladder", move || {
+            let mut r = Report::new();
+            c11_ladder(lmax, &mut r);
+            r
+        }));
+    }
     let mut r = run_isolated(items, &args.out, "C11");
     r.rule = format!(
         "every ordered pair of strings of length <= {lp} over {{a,b,'/','.'}} (empty included) into find/find_buf/match_up_to/match_up_to_str/ends_with/path_join/path_join_fmt, \
          every string of length <= {ls} into parent_path/path_file_name, each under two guard-page placements (operand ends at / starts after an inaccessible page); \
-         plus a fixed ladder of long operands (labelled, not exhaustive). Each (op, operands, placement) generated once."
+         plus a fixed ladder of long operands (labelled, not exhaustive); a family of compile-time literal templates for path_join_fmt x every left operand; \
+         a length ladder: for EVERY length up to 200 (thorough 1100) equal / one-byte-changed / shorter / longer operands in both orders and placements, and every \
+         position of one separator. Each (op, operands, placement) generated once."
     );
     r.bound("max_len_pairs", lp);
     r.bound("max_len_single", ls);
